@@ -74,7 +74,7 @@ class P(Property):
             'seeded offsets: peer STOP_SENDING(code), peer close(code), peer silent until the idle timeout, write after finish, local reset(code up to 2^64-1), local close(code). '
             'qr: peer writes 1..5 chunks; recv_id queried on a fresh stream, WHILE a read is pending, after that read was cancelled, after a '
             'deferred stop, after data, at the end; stop_sending issued while idle / while the read future owns the stream (once or twice); '
-            'peer reset(code), close(code), idle timeout, local close.  qa: accept/open on a connection lost by peer close(code), local '
+            'peer reset(code), close(code), idle timeout, local close; after such a failed read the same stream is polled again 1..3 times, asked for its id, stopped and polled once more (never a panic, connection errors repeat with the same code).  qa: accept/open on a connection lost by peer close(code), local '
             'close, idle timeout, for poll_accept_recv/bidi and for poll_open_bidi/send of BOTH OpenStreams impls (Connection, opener() handle, its clone).  qd: datagrams sent / received through the adapter\'s handlers (quarter ids over all varint forms, payloads '
             '0..1100 bytes), too large, datagrams disabled by the peer, and after peer close(code) / local close / idle timeout.  Codes from {0,1,63,64,256,...,2^62-1} and seeded 62-bit values.  Compared: bytes received by the peer '
             '(length + FNV-1a) when no fault, prefix validity otherwise; refusal and its class; the set of ids reported and the id the '
@@ -243,8 +243,14 @@ class P(Property):
             fault = '%s:%d@%d' % (fk, code, rng.randint(0, total))
         ids = rng.choice([63, 63, rng.randint(0, 63) | 32])   # bit 5 (at the end) is reached in every run
         via = rng.choice(['conn', 'opener', 'clone'])
-        return ('qr role=%s kind=%s via=%s skip=%d win=%d cwin=%d chunks=%s seed=%d ids=%d stop=%s fault=%s'
-                % (role, kind, via, skip, win, cwin, ','.join(map(str, chunks)), rng.randint(0, 255), ids, stop, fault))
+        tail = ''
+        if fk != 'fin':
+            # after the failed read: poll again 1..3 times, recv_id, stop_sending, poll once more
+            re = rng.choice([0, 1, 1, 2, 3])
+            if re:
+                tail = ' re=%d restop=%s' % (re, rng.choice(['-', str(rng.choice([c for c in CODES if c <= VMAX]))]))
+        return ('qr role=%s kind=%s via=%s skip=%d win=%d cwin=%d chunks=%s seed=%d ids=%d stop=%s fault=%s%s'
+                % (role, kind, via, skip, win, cwin, ','.join(map(str, chunks)), rng.randint(0, 255), ids, stop, fault, tail))
 
     def cases(self, tier, rng):
         out = []
